@@ -1351,7 +1351,7 @@ static int vc_definition(int newwin)
 		vi_wmirror();
 	xrow = r;
 	xoff = o;
-	return VC_COL;
+	return newwin ? VC_ALL : VC_COL;
 }
 
 static int vc_openpath(int ln, int newwin)
